@@ -10,8 +10,9 @@ import random
 from . import sim
 
 NAMES = ["a", "b", "c", "d", "e", "f", "g", "h", "k", "m", "t-1", "x_2", "Z9", "run-all"]
-PKGS = ["", "p", "p/q", "lib", "exp-1"]
+PKGS = ["", "p", "p/q", "lib", "exp-1", "subtask", "a_task/x"]
 STR_VALUES = ["abc", "x.y", "a-b_c", "10k", "path/to", "v1.2.3", "True", "0"]
+ODD_STR_VALUES = ["caf\u00e9", "\u65e5\u672c", "na\u00efve-\u00fc", "\udc80x", "a\udcffb"]   # non-ASCII; lone surrogates = raw non-UTF-8 bytes
 
 
 def tid(pkg, name):
@@ -60,12 +61,58 @@ def _render_xgroup(scn, pkg, gname):
         gname, "sim @" + gname, ", ".join(exps), bool(x["chain"]), deps)
 
 
+def add_include(r, scn):
+    """two packages share an included .cond file and customise its (mutable) values in place"""
+    by_pkg = {}
+    for t, d in scn["tasks"].items():
+        if d["kind"] in ("exp", "cmd") and not d.get("xg"):
+            by_pkg.setdefault(split_tid(t)[0], []).append(t)
+    if len(by_pkg) < 2:
+        return False
+    base_args = [gen_value(r) for _ in range(r.randint(0, 2))]
+    base_opts = {k: gen_value(r) for k in r.sample(["threads", "mode"], r.randint(0, 2))}
+    scn["include"] = {"file": "common.cond", "base_args": base_args, "base_options": base_opts}
+    for pkg in r.sample(sorted(by_pkg), 2):
+        t = r.choice(by_pkg[pkg])
+        d = scn["tasks"][t]
+        extra_a = [gen_value(r) for _ in range(r.randint(1, 2))]
+        extra_o = {k: gen_value(r) for k in r.sample(["mem", "alpha", "z"], r.randint(1, 2))}
+        d["args"] = list(base_args) + extra_a
+        d["options"] = dict(base_opts, **extra_o)
+        d["inc"] = {"args_extra": extra_a, "opts_extra": extra_o,
+                    "deps": bool(d["deps"]) and all(split_tid(x)[0] == pkg for x in d["deps"])}
+        if d["inc"]["deps"]:
+            d["rel"] = [True] * len(d["deps"])
+    return True
+
+
 def render_cond(scn, pkg):
     lines = []
     done_groups = set()
+    inc_task = [(t, d) for t, d in scn["tasks"].items() if d.get("inc") and split_tid(t)[0] == pkg]
+    if inc_task:
+        t0, d0 = inc_task[0]
+        lines.append("include(%r)" % ("//" + scn["include"]["file"]))
+        lines.append("BASE_ARGS += %s" % py_lit(d0["inc"]["args_extra"]))
+        lines.append("BASE_OPTIONS.update(%s)" % py_lit(d0["inc"]["opts_extra"]))
+        if d0["inc"]["deps"]:
+            lines.append("SHARED_DEPS += %s" % py_lit([":" + split_tid(x)[1] for x in d0["deps"]]))
     for t, d in scn["tasks"].items():
         p, name = split_tid(t)
         if p != pkg:
+            continue
+        if d.get("inc"):
+            fn = "run_experiment" if d["kind"] == "exp" else "run_command"
+            parts = ["name=%r" % name, "run=%r" % ("sim " + t)]
+            if d.get("par"):
+                parts.append("parallelizable=True")
+            parts += ["args=BASE_ARGS", "options=BASE_OPTIONS"]
+            if d["inc"]["deps"]:
+                parts.append("deps=SHARED_DEPS")
+            elif d["deps"]:
+                rel = d.get("rel", [True] * len(d["deps"]))
+                parts.append("deps=[%s]" % ", ".join(py_lit(dep_ref(t, x, r_)) for x, r_ in zip(d["deps"], rel)))
+            lines.append("%s(%s)" % (fn, ", ".join(parts)))
             continue
         if d.get("xg"):
             g = d["xg"]["g"]
@@ -111,6 +158,26 @@ def materialize(scn, root):
             (root / pkg / "COND").write_text(render_cond(scn, pkg))
     for extra in scn.get("dirs", []):
         (root / extra).mkdir(parents=True, exist_ok=True)
+    if scn.get("include"):
+        inc = scn["include"]
+        (root / inc["file"]).write_text("BASE_ARGS = %s\nBASE_OPTIONS = %s\nSHARED_DEPS = []\n"
+                                        % (py_lit(inc["base_args"]), py_lit(inc["base_options"])))
+    if scn.get("condout_symlink"):
+        # results kept on another volume: cond-out is a symbolic link
+        store = root.parent / "storage"
+        store.mkdir(exist_ok=True)
+        if not os.path.lexists(root / "cond-out"):
+            os.symlink(str(store), str(root / "cond-out"))
+    if scn.get("enclosing"):
+        # the project lives inside another Conductor project (vendored checkout): the nearest
+        # cond_config.toml is the one that counts
+        outer = root.parent
+        if not (outer / "cond_config.toml").exists():
+            (outer / "cond_config.toml").write_text("disable_git = true\n")
+            for pkg in sorted(pkgs):
+                (outer / pkg).mkdir(parents=True, exist_ok=True)
+                if any(split_tid(t)[0] == pkg for t in scn["tasks"]):
+                    (outer / pkg / "COND").write_text(render_cond(scn, pkg))
 
 
 def op_argv(op, sim_obj=None):
@@ -168,7 +235,9 @@ def op_argv(op, sim_obj=None):
 # generation
 
 
-def gen_value(r):
+def gen_value(r, odd=False):
+    if odd and r.random() < 0.2:
+        return r.choice(ODD_STR_VALUES)
     c = r.random()
     if c < 0.3:
         return r.choice([0, 1, 7, 42, -3, 100000])
